@@ -127,7 +127,7 @@ REGISTRY = {
               'raise), ordering of normalisation steps, trigger/repair agreement',
               'The raise sites are exactly the five documented conditions (duplicates over all columns, coincidence by '
               'inner merge on (dt, ceilo) for types 0 and -1), the sanity checks only warn with AmpycloudWarning, the '
-              'working copy is a deep copy that is returned, casts and drops repair exactly what was tested.',
+              'working copy is a deep copy that is returned, casts and drops repair exactly what was tested, the only stores into the working copy are those casts, and chunk construction screens its input exactly once.',
               'Semantics of pandas duplicated()/merge (A1).'),
     'C16': _o('name-taint scan over provenance terms: ceilometer names may only meet ==, !=, membership in the exclusion '
               'list, unique, len; per-ceilometer results only order-insensitive integer reductions',
@@ -161,7 +161,7 @@ REGISTRY = {
               'across its steps and its inverse switches segment at the images of the step edges (for 0..5 edges, '
               'symbolic edges and scales); convert_kwargs derives a parameter only when it is absent, only when scaling, '
               'and every result it returns for a scaling carries all the parameters that scaling needs (propositional '
-              'entailment over the guards); every routine scales when called without a mode; the interval derived for the min-max scaling encloses the data on every path (Farkas certificates over the path conditions); no scaling routine keeps anything between calls (module-level objects, memoisation). That min-max scaling lands in [0, 1] numerically is not claimed.', A2 + 'scale > 0, max > min, step scales > 0 (A5).'),
+              'entailment over the guards); every routine scales when called without a mode; the interval derived for the min-max scaling encloses the data on every path (Farkas certificates over the path conditions); no scaling routine keeps anything between calls (module-level objects, memoisation); every segment of step scaling is written whatever the data; the forward and backward parameter sets handed to the plots are two objects with modes do / undo. That min-max scaling lands in [0, 1] numerically is not claimed.', A2 + 'scale > 0, max > min, step scales > 0 (A5).'),
     'C20': _o('effect analysis of plot code (rcParams writers, figure lifecycle under `not show`, file writes under '
               '`save_stem is not None`), chunk read-only summaries, modulo rule on style-cycle subscripts, '
               'no-state-between-plots rule (memoised results never modified, no module-level writes on the plotting path), '
@@ -170,7 +170,7 @@ REGISTRY = {
               'functions run inside plt.style.context; the figure is closed on every normal show=False path; files are '
               'written once per requested format only when a stem is given; plot code has no write effect on the chunk; '
               'style cycles are indexed modulo their length; nothing kept between two plots is altered; string literals stored into '
-              'arrays of string literals fit their fixed width; at most one call creates a figure on any path of a plotting function; arguments that may be None enter concatenation / arithmetic only where the path condition excludes None; no local is read '
+              'arrays of string literals fit their fixed width; at most one call creates a figure on any path of a plotting function; arguments that may be None enter concatenation / arithmetic only where the path condition excludes None and are replaced by their default only under an `is None` test; arrays built by the plot code are never indexed by index labels of the chunk data; no local is read '
               'unbound on a loop-free path. Totality of '
               'matplotlib is not claimed.', ''),
 }
